@@ -21,7 +21,12 @@ CheckEv == /\ IsEvent("check")
 (* writestr / writef: rejected with ValueError and nothing changes, or accepted and exactly one member appears *)
 WriteNamed == /\ (IsEvent("writestr") \/ IsEvent("writef"))
               /\ Ev.before = count
-              /\ IF SpecVerdict(Ev.name)
+              \* a name the header cannot hold at all (a lone surrogate, an embedded NUL) lies outside the names the property speaks of:
+              \* it may be refused like a bad name - what it may not is be stored in another form (the accepted branch below)
+              /\ IF "unstorable" \in DOMAIN Ev /\ Ev.unstorable /\ Ev.exc = "ValueError"
+                 THEN Ev.after = count /\ count' = count
+                 ELSE
+                 IF SpecVerdict(Ev.name)
                  THEN /\ Ev.exc = "none"
                       /\ Ev.after = count + 1
                       /\ Ev.stored.lead = 0 /\ Climb(Ev.stored.comps, 0)
